@@ -8,7 +8,8 @@ Orders == {"env-then-os", "os-then-env"}
 VARIABLE pt
 \* the value R = ${V} gets when written in .env #2 (after V's own line there, if any): what is above it
 RefValue(ex, os, e1, e2) == IF ex.set THEN ex.v ELSE IF os.set THEN os.v ELSE IF e1.set THEN e1.v ELSE IF e2.set THEN e2.v ELSE ""
-Init == \E ex \in {Unset, V("ex")} : \E os \in {Unset, V("os")} : \E e1 \in {Unset, V("e1")} : \E e2 \in {Unset, V("e2")} :
+\* a source may also define the variable as the empty string: still a definition, it wins over the sources below it
+Init == \E ex \in {Unset, V("ex"), V("")} : \E os \in {Unset, V("os"), V("")} : \E e1 \in {Unset, V("e1"), V("")} : \E e2 \in {Unset, V("e2")} :
         \E ord \in Orders :
           pt = [ex |-> ex, os |-> os, e1 |-> e1, e2 |-> e2, order |-> ord,
                 expV |-> Pick(ex, os, e1, e2),
